@@ -33,14 +33,23 @@ package interp
 //@   requires fn != nil
 
 //@ func (*ExecEnv).expand
+//@   loop "for mode&Assign != 0" invariant 0 <= i && i < len(word) && len(fields) >= 1
 //@   ensures err == nil ==> len(fields) >= 1
 
 //@ func (*ExecEnv).expandParam
 //@   requires len(fields) >= 1 && pe != nil
 //@   ensures result1 == nil ==> len(result0) >= 1
 
+// expandTilde reports how far it consumed: off literals of word beyond the
+// first one, and col bytes of the literal it stopped in.
 //@ func (*ExecEnv).expandTilde
 //@   requires f != nil
+//@   loop "for" invariant 0 <= off && off <= len(word) && 0 <= col
+//@   loop "for" invariant off == 0 ==> col + len(s) == len(s#0)
+//@   loop "for" invariant off > 0 ==> word[off-1] is *ast.Lit && col + len(s) == len(word[off-1].(*ast.Lit).Value)
+//@   ensures 0 <= off && off <= len(word) && 0 <= col
+//@   ensures off == 0 ==> col <= len(s)
+//@   ensures off > 0 ==> word[off-1] is *ast.Lit && col <= len(word[off-1].(*ast.Lit).Value)
 
 //@ func (*ExecEnv).expandPath
 //@   requires f != nil
